@@ -28,6 +28,7 @@ type Obl struct {
 	Detail        string // what is required
 	FailCtx       string // first failing context
 	Note          string // what discharged it (first context)
+	In            ssa.Instruction
 }
 
 type Engine struct {
@@ -456,7 +457,7 @@ func (e *Engine) oblige(fr *frame, rule string, in ssa.Instruction, what string,
 	key := fmt.Sprintf("%s/%s/%s#%d/%s", rule, shortFn(fn), instrKind(in), e.ordinal(in), what)
 	o := e.Obls[key]
 	if o == nil {
-		o = &Obl{Rule: rule, Fn: shortFn(fn), Key: key, Pos: posOf(in), Detail: detail}
+		o = &Obl{Rule: rule, Fn: shortFn(fn), Key: key, Pos: posOf(in), Detail: detail, In: in}
 		e.Obls[key] = o
 		e.oblOrder = append(e.oblOrder, key)
 	}
@@ -753,4 +754,41 @@ func (e *Engine) PtrFieldLenExpr(st *State, p ssa.Value, idx int) Lin {
 	}
 	key := fmt.Sprintf("%s%s.f%d", ad.Obj, ad.Path, idx)
 	return st.Subst(Var(e.cellLen(key)))
+}
+
+// ActualOf resolves a parameter of the activation being evaluated (and of its callers) to the
+// argument expression the caller passed, looking through the inlined call stack.
+func (e *Engine) ActualOf(v ssa.Value) ssa.Value {
+	strip := func(v ssa.Value) ssa.Value {
+		for {
+			ci, ok := v.(*ssa.ChangeInterface)
+			if !ok {
+				return v
+			}
+			v = ci.X
+		}
+	}
+	for i := len(e.stack) - 1; i >= 0; i-- {
+		v = strip(v)
+		p, ok := v.(*ssa.Parameter)
+		if !ok {
+			return v
+		}
+		f := e.stack[i]
+		if p.Parent() != f.fn || f.call == nil {
+			return v
+		}
+		k := -1
+		for j, q := range f.fn.Params {
+			if q == p {
+				k = j
+			}
+		}
+		cc := f.call.Common()
+		if k < 0 || cc.IsInvoke() || k >= len(cc.Args) {
+			return v
+		}
+		v = cc.Args[k]
+	}
+	return strip(v)
 }
